@@ -490,7 +490,9 @@ Definition write_dyn (n mul w : nat) (idx x v : bv) : option bv :=
 
 Inductive sl_form :=
 | SF_dyn (w k : nat) | SF_part (p k : nat) | SF_dynbit (k : nat)
-| SF_static (off w : nat) | SF_spart (p i : nat) | SF_bit (i : nat) | SF_msb | SF_lsb | SF_upper (w : nat) | SF_lower (w : nat).
+| SF_static (off w : nat) | SF_spart (p i : nat) | SF_bit (i : nat) | SF_msb | SF_lsb | SF_upper (w : nat) | SF_lower (w : nat)
+(* whole-object operators that go through the cached sign (msb) alias: abs(x), x * aux[k], x < aux[k] *)
+| SF_abs | SF_mul (k : nat) | SF_lt (k : nat).
 Inductive sl_req := SR_read (f : sl_form) | SR_write (f : sl_form) (v : nat) | SR_assign (v : nat).
 
 Definition aux_get (aux : list sval) (k : nat) : option sval := nth_error aux k.
@@ -507,6 +509,9 @@ Definition read_form (f : sl_form) (x : sval) (aux : list sval) : option sval :=
   | SF_lsb => fe_lsb x
   | SF_upper w => fe_upper w x
   | SF_lower w => fe_lower w x
+  | SF_abs => match sv_ty x with TS => fe_abs x | _ => None end
+  | SF_mul k => y <- aux_get aux k ;; match sv_ty x, sv_ty y with TS, TS => fe_arith A_MUL x y | _, _ => None end
+  | SF_lt k => y <- aux_get aux k ;; match sv_ty x, sv_ty y with TS, TS => fe_cmp C_LT x y | _, _ => None end
   end.
 
 (* alias = value: the value is expanded to the alias width by its own policy; vector aliases take a
@@ -544,6 +549,7 @@ Definition write_form (f : sl_form) (x : sval) (aux : list sval) (v : sval) : op
   | SF_lsb => if wx =? 0 then None else y <- bit_val ;; upd (write_static 0 1 (sv_bits x) y)
   | SF_upper w => if wx <? w then None else y <- vec_val w ;; upd (write_static (wx - w) w (sv_bits x) y)
   | SF_lower w => y <- vec_val w ;; upd (write_static 0 w (sv_bits x) y)
+  | SF_abs | SF_mul _ | SF_lt _ => None
   end.
 
 (* x = v (outside any conditional scope): a wider value makes the object grow, otherwise the value
